@@ -33,6 +33,34 @@ CLAIMS = {
                 ref="DESIGN.md §4 C12"),
 }
 
+LIB_NOTE = ("Trusted base: the Go toolchain; the driver (generator + oracle) in /verif/harness/libdrv; the synthetic machine generator where machines are involved. "
+            "Oracles are written from the property statement, documentation and API comments. Says nothing about inputs the generators do not reach; coverage floors turn that into inconclusive.")
+
+CLAIMS.update({
+    "C08": dict(engine="lib", note=LIB_NOTE, technique="runtime monitoring: set-algebra oracle on real AllocateCpus/ReleaseCpus calls over generated machines, subsets, counts and options; repeat-call determinism",
+                text="Exploration: hundreds of thousands of real allocator calls on generated machines (hybrid, L2 clusters, offline CPUs, cpufreq/EPP priority classes), every result checked for exact count, subset, bookkeeping of the mutated set, failure on too-large counts and determinism (same allocator, twin allocator); thorough enumerates small machines completely.",
+                ref="DESIGN.md §4 C08"),
+    "C11": dict(engine="rm", category="fault_enumeration", technique="runtime monitoring with fault injection: plugin restarts on current/stale state directories with runtime drift, reference (cache-less) plugin as oracle",
+                text="Fault enumeration: histories with 1-2 restarts; the state directory is snapshotted at a PRNG-chosen request boundary, the plugin is taken down, the runtime drifts (containers created/started/stopped/removed), the plugin restarts on the current or the stale directory and is synchronized; the oracle checks that exactly the runtime's live containers hold allocations (decided against a cache-less reference plugin synchronized with the same lists), that gone pods/containers are purged, and all C01-C05/C09/C12 monitors on the restart and on every later request.",
+                ref="DESIGN.md §4 C11"),
+    "C13": dict(engine="rm", technique="runtime monitoring: before/after observation around every reconfiguration (incl. policy-internal state) + differential twins with self-twin calibration",
+                text="Exploration: every reconfiguration inside generated histories is bracketed by observations (per-container cache resources, runtime view, advertised zones, policy assignments, policy-internal state steering later decisions): identical configs and rejected configs of every rejection kind must change nothing, accepted ones must leave every live container allocated; differential twins replay a deterministic history with a rejected update injected at a PRNG-chosen boundary and compare every later request.",
+                ref="DESIGN.md §4 C13"),
+    "C16": dict(engine="lib", note=LIB_NOTE, technique="runtime monitoring: discovered sysfs.System vs generating machine model; topology-aware pool tree vs shape computed from model + configuration",
+                text="Exploration: thousands of generated machines written as sysfs trees; every accessor of the discovered system is compared with the generating model; for several configurations per machine the real topology-aware backend is set up and its pool tree (root, levels, CPU splits, memory attachment incl. CPU-less PMEM/HBM nodes) is compared with the documented shape.",
+                ref="DESIGN.md §4 C16"),
+    "C17": dict(engine="agent", note="Trusted base: the Go toolchain; the in-package test driver (fake ConfigInterface, recorder callback). The watch plumbing is not driven: events are fed to the agent's two update functions exactly as the select loop of Agent.Start calls them.",
+                technique="runtime monitoring: exhaustive event-sequence enumeration to depth 5/6 with trace invariants and a doc-derived reference state machine",
+                text="Exploration, exhaustive up to the stated depth: every sequence of watch events over a 15-event alphabet is fed to a fresh Agent; after every event the notify/patch trace is checked against precedence, fallback, re-delivery suppression and validation invariants.",
+                ref="DESIGN.md §4 C17"),
+    "C19": dict(engine="lib", note=LIB_NOTE, technique="runtime monitoring: operator duality, doc-derived reference evaluator, joint keys, weight clamping, balloon-type selection through the real policy",
+                text="Exploration: hundreds of thousands of expressions evaluated on real cache pods/containers against dual-operator laws and a reference evaluator written from the documentation; affinity weights parsed from real annotations; balloon type observed in the real balloons policy against the documented selection order.",
+                ref="DESIGN.md §4 C19"),
+    "C20": dict(engine="lib", note=LIB_NOTE, technique="runtime monitoring: exhaustive CPU encode/decode laws; sampled + structured memory capacities with full adjustment round trips",
+                text="Exploration (CPU part exhaustive): all milli-CPU values 0..256000, all shares 2..262144 and all quotas are checked for tolerance, exactness and monotonicity; the memory estimate table is built under recover for >100k capacities >= 1 MiB and every Burstable adjustment is round-tripped; containers of the three QoS classes go through the real cache.",
+                ref="DESIGN.md §4 C20"),
+})
+
 NOT_YET = {}
 
 ALL = ["C%02d" % i for i in range(1, 21)]
@@ -72,6 +100,10 @@ def main():
         "engines": [
             {"name": "rm", "path": "/verif/harness/cmd/rm", "serves_properties": sorted([p for p, c in CLAIMS.items() if c["engine"] == "rm"]),
              "kind_free_text": "real resmgr (cache + policy + controllers + either policy backend) driven through the real nriPlugin handlers by a runtime model; online monitors after every request"},
+            {"name": "lib", "path": "/verif/harness/cmd/lib", "serves_properties": sorted([p for p, c in CLAIMS.items() if c["engine"] == "lib"]),
+             "kind_free_text": "direct calls of public package APIs on generated inputs with independent oracles"},
+            {"name": "agent", "path": "/verif/overlay/pkg/agent/verif_agent_test.go", "serves_properties": ["C17"],
+             "kind_free_text": "in-package test driver of pkg/agent built with go test -c -overlay"},
         ],
         "checks": checks,
         "notes": "Runtime monitoring only. Exit codes: 0 held / 1 VIOLATION / 2 INCONCLUSIVE (never a VIOLATION line). Known findings: /verif/known-findings.jsonl. See DESIGN.md.",
